@@ -89,6 +89,13 @@ func minimise(p *Prop, sc *Scenario, v Violation) (*Scenario, Violation, bool) {
 	cur, curV := sc, v
 	budget := 600
 	deadline := time.Now().Add(25 * time.Second)
+	run := func(c *Scenario) []Violation { return safeRun(p, c) }
+	if p.Race {
+		// detector reports are de-duplicated per process: evaluate candidates in fresh processes
+		budget = 60
+		deadline = time.Now().Add(60 * time.Second)
+		run = runInSubprocess
+	}
 	changed := false
 	for budget > 0 && time.Now().Before(deadline) {
 		progress := false
@@ -97,7 +104,7 @@ func minimise(p *Prop, sc *Scenario, v Violation) (*Scenario, Violation, bool) {
 				break
 			}
 			budget--
-			vs := safeRun(p, cand)
+			vs := run(cand)
 			for _, nv := range vs {
 				if nv.Kind == curV.Kind {
 					cur, curV = cand, nv
